@@ -175,7 +175,10 @@ pub fn expected_boundary(now_ns: i64, s_minus_delay_ns: i64, u: Unit, n: i64, mo
     Expect::Exactly(next_utc)
 }
 
-pub const ZONES: [&str; 8] = [
+pub const ZONES: [&str; 10] = [
+    // offsets with a seconds part (local mean time): minute boundaries are not UTC minute boundaries
+    "LMT-5:45:13",
+    "LMT3:17:41",
     "UTC0",
     "XXX-5:45",
     "XXX12",
